@@ -102,6 +102,44 @@ fn build(tier: Tier) -> Vec<Scenario> {
             }),
         ));
     }
+    // merge of two timestamped streams through the real two-input Start: the frontier is the
+    // minimum over both sides; every interleaving of the two sides (all select answers)
+    let seqs = crate::props::start_e2::replica_seqs(2, if tier == Tier::Quick { 2 } else { 3 });
+    for (i, l) in seqs.iter().enumerate() {
+        for (j, r) in seqs.iter().enumerate() {
+            let (l, r) = (l.clone(), r.clone());
+            out.push(crate::e2::select_scenario(
+                format!("C06/merge/L{i}-R{j}"),
+                format!("merge of a left stream {:?} and a right stream {:?} (T = timestamped element, W = watermark), every interleaving of the two sides", l, r),
+                Arc::new(move || {
+                    use crate::props::start_e2::Sym as S;
+                    let side = |v: &Vec<S>, base: i64| -> Vec<Vec<El<i64>>> {
+                        let mut b: Vec<Vec<El<i64>>> = v
+                            .iter()
+                            .enumerate()
+                            .map(|(k, s)| match s {
+                                S::T(t) => vec![StreamElement::Timestamped(base + k as i64, *t)],
+                                S::W(w) => vec![StreamElement::Watermark(*w)],
+                            })
+                            .collect();
+                        b.push(vec![StreamElement::FlushAndRestart]);
+                        b.push(vec![StreamElement::Terminate]);
+                        b
+                    };
+                    let env = renoir::StreamContext::new(renoir::RuntimeConfig::local(1).unwrap());
+                    let s1 = env.stream(ScriptSource::<i64>::new(vec![], renoir::Replication::One));
+                    let s2 = env.stream(ScriptSource::<i64>::new(vec![], renoir::Replication::One));
+                    let out = crate::e2::drive_binary(s1.merge(s2).verif_into_chain(), vec![side(&l, 0)], vec![side(&r, 100)]);
+                    let n_in = l.iter().chain(r.iter()).filter(|s| matches!(s, S::T(_))).count();
+                    let n_out = out.iter().filter(|e| matches!(e, StreamElement::Timestamped(..))).count();
+                    if n_in != n_out {
+                        return Some(Fail::new("c06-merge-conservation", format!("merge of {:?} and {:?}: {n_out} elements out, {n_in} in", l, r)));
+                    }
+                    watermark_safety(&shape(&out)).map(|(sig, msg)| Fail::new(format!("c06-merge-{sig}"), format!("merge of {:?} and {:?}: {msg}; output {:?}", l, r, shape(&out))))
+                }),
+            ));
+        }
+    }
     out
 }
 
